@@ -288,6 +288,51 @@ def gen_reccol():
   yield Case('EXPR', Program(Lp + [R('T', x, V('e'), Call('Size', V('l')), body=(Lit('Lp', x, V('l')), ('in', V('e'), V('l'))))]), ['T', 'Lp'])
 
 
+def gen_str(full, agg=False):
+  """string- and boolean-typed columns (the other families are numeric)"""
+  s1, t1, b1 = V('s'), V('t'), V('b')
+  sx = Call('ToString', x)
+  progs = [
+    R('T', s1, body=(Lit('S', s1),)),
+    R('T', Bin('++', s1, S('x')), body=(Lit('S', s1),)),
+    R('T', s1, t1, body=(Lit('S', s1), Lit('S', t1), Cmp('<', s1, t1))),
+    R('T', s1, t1, body=(Lit('S', s1), Lit('S', t1), Cmp('!=', s1, t1))),
+    R('T', x, s1, body=(Lit('B', x), Lit('S', s1))),
+    R('T', x, Bin('++', s1, sx), body=(Lit('B', x), Lit('S', s1))),
+    R('T', s1, body=(Lit('S', s1), ('in', s1, ('list', (S('a'), S('c')))))),
+    R('T', s1, body=(Lit('S', s1), Cmp('==', s1, S('a')))),
+    R('T', s1, body=(Lit('S', s1), Not(Lit('S', Bin('++', s1, S('')))))),
+    R('T', s1, body=(Lit('S', s1), Not(Cmp('==', s1, S('b'))))),
+    R('T', x, ('if', Bin('<', x, y), S('lo'), S('hi')), body=(Lit('A', x, y),)),
+    R('T', x, Bin('<', x, y), body=(Lit('A', x, y),)),
+    R('T', x, b1, body=(Lit('A', x, y), Eq(b1, Bin('<', x, y)))),
+    R('T', x, body=(Lit('A', x, y), Eq(b1, Bin('<=', x, y)), Cmp('==', b1, ('b', True)))),
+    R('T', x, Bin('&&', Bin('<', x, y), Bin('==', s1, S('a'))), body=(Lit('A', x, y), Lit('S', s1))),
+    R('T', ('rec', (('n', x), ('s', s1))), body=(Lit('B', x), Lit('S', s1))),
+    R('T', ('list', (s1, S('z'))), body=(Lit('S', s1),)),
+    R('T', s1, Call('Size', ('list', (s1, s1))), body=(Lit('S', s1),)),
+    R('T', Aggr('Count', s1), body=(Lit('S', s1),), distinct=True),
+    R('T', Aggr('Max', s1), Aggr('Min', s1), body=(Lit('S', s1),), distinct=True),
+    R('T', s1, Aggr('Sum', N(1)), body=(Lit('S', s1),), distinct=True),
+    R('T', x, Aggr('List', s1), body=(Lit('B', x), Lit('S', s1)), distinct=True),
+    R('T', x, Aggr('ArgMax', arrow(s1, s1)), body=(Lit('B', x), Lit('S', s1)), distinct=True),
+    R('T', x, V('l'), body=(Lit('B', x), Eq(V('l'), Comb('List', s1, (Lit('S', s1),))))),
+    R('T', x, V('c'), body=(Lit('B', x), Eq(V('c'), Comb('Count', s1, (Lit('S', s1), Cmp('!=', s1, sx)))))),
+    R('T', s1, body=(Lit('S', s1),), distinct=True),
+    R('T', s1, body=(('or', ((Lit('S', s1),), (Lit('S', s1), Cmp('==', s1, S('a'))))),)),
+  ]
+  for r in progs:
+    is_agg = r.is_agg() or r.distinct or 'Comb' in repr(r.body) or "'comb'" in repr(r.body)
+    if bool(is_agg) != bool(agg): continue
+    yield Case('STR', Program([r]), ['T'], schema='ABS', info='keyless' if (r.distinct and r.args and all(e[0] == 'aggr' for _, e in r.args)) else None)
+  if agg: return
+  F = R('F', s1, value=Bin('++', s1, S('!')))
+  yield Case('STR', Program([F, R('T', Call('F', s1), body=(Lit('S', s1),))]), ['T'], schema='ABS')
+  J = R('J', s1, t1, body=(Lit('S', s1), Eq(t1, Bin('++', s1, s1))))
+  yield Case('STR', Program([J, R('T', s1, t1, body=(Lit('J', s1, t1),))]), ['T', 'J'], schema='ABS')
+  yield Case('STR', Program([J, R('T', t1, body=(Lit('S', s1), Lit('J', s1, t1), Cmp('>', t1, S('aa'))))]), ['T'], schema='ABS')
+
+
 def c01_cases(thorough):
   dbs = dbs_ab(2)
   gens = [gen_cq(3 if thorough else 2), gen_cons(2 if thorough else 1), gen_disj(thorough), gen_expr(thorough), gen_reccol(), gen_func(thorough), gen_inj(thorough)]
@@ -299,6 +344,9 @@ def c01_cases(thorough):
       seen.add(t)
       c.dbs = dbs; c.fact_dbs = FACT_DBS_AB
       yield c
+  for c in gen_str(thorough):
+    c.dbs = semcheck.dbs_abs(); c.fact_dbs = semcheck.FACT_DBS_ABS
+    yield c
 
 
 # ======================================================================================== C02 families
@@ -550,6 +598,9 @@ def sub_exprs(e):
 def c02_cases(thorough):
   dbs = dbs_ab(2) + TIE_DBS_AB
   seen = set()
+  for c in gen_str(thorough, agg=True):
+    c.dbs = semcheck.dbs_abs(); c.fact_dbs = semcheck.FACT_DBS_ABS
+    yield c
   for g in (gen_aggh(thorough), gen_agge(thorough), gen_neg(thorough)):
     for c in g:
       t = c.text()
